@@ -31,11 +31,11 @@ async def bounded(coro, limit=15.0):
     import time as _t
 
     task = asyncio.ensure_future(coro)
-    t0, spins = _t.monotonic(), 0
+    t0, spins = env.REAL_MONOTONIC(), 0
     while not task.done():
         spins += 1
         await asyncio.sleep(0 if spins < 300 else 0.002)
-        if _t.monotonic() - t0 > limit:
+        if env.REAL_MONOTONIC() - t0 > limit:
             task.cancel()
             try:
                 await task
@@ -254,6 +254,7 @@ class C18(Prop):
             acc.ev()
             acc.count(f"action_{a}")
             # the host's wall clock is not monotonic: NTP steps, manual corrections, suspended machines
+            env.idle(rs.choice([0, 0, 0, 0.3, 2, 12, 61, 900, 86400]))      # ... and real time passes between the calls
             step = rs.choice([0, 0, 0, 1, 75, 3600, -2, -1800, -86400])
             steps.append(step)
             if step:
